@@ -13,7 +13,7 @@ Correspondence with the Python, item by item
   `Driver.specItems` a `retained _ []` item is not part of a group, and `apiErr`
   / `unspecified` belong to no group.
 * `spec == '*'` (some `unspecified` among the specification's outputs - what
-  `Spec.Broker.step` emits after `overlap`, for packets a client has no business
+  `Spec.Broker.step` emits for packets a client has no business
   sending and for the in-process `Unsubscribe`): everything is accepted.
 * the `apierr` marker must be present on both sides or on neither.
 * within a group (`match_group` ⇔ `MatchGroup`):
